@@ -20,6 +20,11 @@ def update (tm : CTimer) (t : Tick) : CTimer :=
 def reset (tm : CTimer) : CTimer := { tm with duration := 0 }
 end CTimer
 
+/-- `a <= b` on `f32` durations, as a Boolean (fixes the decidability instance at the model level) -/
+def leQ (a b : Rat) : Bool := decide (a ≤ b)
+
+theorem leQ_iff (a b : Rat) : leQ a b = true ↔ a ≤ b := by simp [leQ]
+
 namespace Cond
 
 /-- `Press`. -/
@@ -50,7 +55,7 @@ def holdStep (T : Rat) (oneShot : Bool) (act : Rat) (s : HoldSt) (t : Tick) (v :
   let actuated := v.isActuated act
   let timer := if actuated then s.timer.update t else s.timer.reset
   let isFirst := !s.fired
-  let fired := decide (T ≤ timer.duration)
+  let fired := leQ T timer.duration
   let st : AState :=
     if fired then (if isFirst || !oneShot then .fired else .none)
     else if actuated then .ongoing else .none
@@ -72,7 +77,7 @@ def holdRelStep (T : Rat) (act : Rat) (s : HoldRelSt) (t : Tick) (v : Value) : H
   let prev := s.actuated
   let a := v.isActuated act
   if a then ({ timer, actuated := a }, .ongoing)
-  else ({ timer := timer.reset, actuated := a }, if prev && decide (T ≤ held) then .fired else .none)
+  else ({ timer := timer.reset, actuated := a }, if prev && leQ T held then .fired else .none)
 
 /-- `HoldAndRelease` (with the D2 fix: fires only on a falling edge). -/
 def holdAndRelease (id : Nat) (T : Rat) (act : Rat) (rel : Bool) : Cond :=
@@ -90,8 +95,8 @@ def tapStep (T : Rat) (act : Rat) (s : TapSt) (t : Tick) (v : Value) : TapSt × 
   let a := v.isActuated act
   let timer := if a then s.timer.update t else s.timer.reset
   let st : AState :=
-    if last && !a && decide (lastHeld ≤ T) then .fired
-    else if decide (T ≤ timer.duration) then .none
+    if last && !a && leQ lastHeld T then .fired
+    else if leQ T timer.duration then .none
     else if a then .ongoing else .none
   ({ timer, actuated := a }, st)
 
@@ -111,7 +116,7 @@ def pulseStep (I : Rat) (limit : Nat) (onStart : Bool) (act : Rat) (s : PulseSt)
     let timer := s.timer.update t
     if limit == 0 || s.count < limit then
       let n : Nat := if onStart then s.count else s.count + 1
-      if decide (I * (n : Rat) ≤ timer.duration) then ({ timer, count := s.count + 1 }, .fired)
+      if leQ (I * (n : Rat)) timer.duration then ({ timer, count := s.count + 1 }, .fired)
       else ({ timer, count := s.count }, .ongoing)
     else ({ timer, count := s.count }, .none)
   else ({ timer := s.timer.reset, count := 0 }, .none)
